@@ -239,6 +239,8 @@ pub fn contract_addr(i: usize) -> Address {
     Address::from(b)
 }
 pub const MINER: Address = Address::new([0xBE; 20]);
+/// an account that exists in the pre-state and is empty (EIP-161: a touch deletes it)
+pub const EMPTY_MINER: Address = Address::new([0xBD; 20]);
 
 #[derive(Clone, Debug)]
 pub struct BlockSpec {
@@ -285,6 +287,7 @@ pub fn make_world(n_eoa: usize, rng: &mut Rng) -> World {
         n_eoa,
         db: MemDb::default(),
     };
+    db.accounts.insert(EMPTY_MINER, AccountInfo::default());
     put_contract(&mut db, w.mix, contract_mix(), 0);
     put_contract(&mut db, w.probe, contract_probe(), 0);
     put_contract(&mut db, w.cbprobe, contract_coinbase_probe(), 0);
@@ -318,6 +321,8 @@ pub struct GenOpts {
     pub cb: bool,
     /// wrong-nonce transactions are mostly invalid for a second reason too
     pub multi: bool,
+    /// the fee recipient is an existing empty account in half of the blocks
+    pub empty_ben: bool,
 }
 
 /// A conflict-heavy block: few slots, data-dependent slot choice, shared callers (nonce chains).
@@ -332,7 +337,10 @@ pub fn gen_block(rng: &mut Rng, n_txs: usize, opts: GenOpts) -> (World, BlockSpe
     let specs = [SpecId::SHANGHAI, SpecId::CANCUN, SpecId::PRAGUE, SpecId::LONDON, SpecId::BERLIN];
     let spec = if rng.chance(2, 3) { SpecId::CANCUN } else { *rng.pick(&specs) };
     let basefee = if spec >= SpecId::LONDON { rng.below(3) } else { 0 };
-    let beneficiary = if opts.beneficiary_roles && rng.chance(1, 3) {
+    let beneficiary = if opts.empty_ben && rng.chance(1, 2) {
+        // existing empty fee recipient: a zero reward still touches (and so deletes) it
+        EMPTY_MINER
+    } else if opts.beneficiary_roles && rng.chance(1, 3) {
         match rng.below(3) {
             0 => eoa(0),          // a sender
             1 => world.mix,       // a contract with storage
